@@ -2,6 +2,7 @@ package harness
 
 import (
 	"os"
+	"strconv"
 	"testing"
 )
 
@@ -21,14 +22,18 @@ func TestDriver(t *testing.T) {
 	if err != nil {
 		t.Fatal(err)
 	}
-	log, err := NewLog(os.Getenv("VERIF_TRACE"), os.Getenv("VERIF_BOUNDS"))
+	from := 0
+	if v := os.Getenv("VERIF_RESUME_FROM"); v != "" {
+		from, _ = strconv.Atoi(v)
+	}
+	log, err := NewLog(os.Getenv("VERIF_TRACE"), os.Getenv("VERIF_BOUNDS"), from > 0)
 	if err != nil {
 		t.Fatal(err)
 	}
-	fn(t, scripts, log)
+	fn(t, scripts, from, log)
 	if err := log.Close(); err != nil {
 		t.Fatal(err)
 	}
 }
 
-var drivers = map[string]func(t *testing.T, scripts []Script, log *Log){}
+var drivers = map[string]func(t *testing.T, scripts []Script, from int, log *Log){}
